@@ -5,6 +5,7 @@ HARNESSES = {
     'radix_seq': {'san': 'asan'},
     'seqcont_seq': {'san': 'asan'},
     'hashmap_seq': {'san': 'asan'},
+    'holders_seq': {'san': 'asan'},
     # basic_string memcpy()s from a null buffer with length 0 (default-constructed strings): no listed property
     # speaks about zero-length copies, so UBSan's nonnull-attribute check is off for this harness (DESIGN.md 2.3)
     'string_seq': {'san': 'asan', 'cxxflags': ['-fno-sanitize=nonnull-attribute']},
@@ -116,5 +117,26 @@ PROPS['C15'] = {
     'assumptions': ['C-string entry points get NUL-terminated input', 'sub_string within range', 'to_number only checked for values that fit the type'],
 }
 PROPS['C16']['runs'].append({'harness': 'string_seq', 'quick': {'rc': rc(800, sizes=[40, 80])}, 'thorough': {'rc': rc(20000, sizes=[40, 80, 160])}})
+
+PROPS['C17'] = {
+    'runs': [{'harness': 'holders_seq',
+              'quick': {'enum': True, 'rc': rc(12000, sizes=[40, 80, 160])},
+              'thorough': {'enum': True, 'rc': rc(150000, sizes=[40, 80, 160, 300]), 'fuzz': {'seconds': 120}}}],
+    'rule': 'pair cases: the complete product destination state x source state x operation for optional<T> (T in int, Tracked, move-only, copy-only; '
+            'copy/move construct/assign), variant<int,Tracked,TB> (3 alternatives + empty; copy/move assign/construct) and expected<Err,T> (value/error; '
+            'copy/move assign/construct), enumerated exhaustively; histories: random sequences over three slots of each holder (construct empty/null_opt/'
+            'value/converting, assign from optional<U>, null_opt, emplace, converting variant assignment, unwrap, map, map_error, write through accessors), '
+            'manual_box initialize/construct_with/destruct cycles, six tuple batteries (construct/copy/move/convert/make_tuple, apply order, tuple_cat of 2 '
+            'and 3 with lvalue/const/rvalue arguments, reference tuples, tuple_cat over reference elements) with generated values; oracle: std::optional / '
+            'index+payload models compared after every operation, accessor addresses inside the holder, std::tuple_cat. Non-trivial: an operation whose '
+            'source and destination states differ, a manual_box destruct/re-initialise cycle, or a tuple battery over >= 2 tuples; distinct = hash of the decoded case.',
+    'required_tags': ['kind-%d' % k for k in range(10)] + ['tuple-%d' % k for k in range(6)] + ['manual_box', 'variant-pair-d3-s3-op0', 'optional-pair-d0-s0-op2', 'expected-pair-d0-s0-op1'],
+    'min_cases': {'quick': 20000, 'thorough': 300000},
+    'level_text': 'complete enumeration of the (destination state x source state x operation) products plus generated histories against std::optional/std::variant-style models; held on everything generated',
+    'level_note': 'trusts the models; moved-from holders are modelled like the std types (state kept, Tracked payload marked)',
+    'technique': 'model-based property testing (exhaustive state-pair enumeration + rapidcheck histories + libFuzzer) against std::optional/variant/tuple semantics',
+    'assumptions': ['accessors only on engaged holders / active alternatives (asserted by the code)'],
+}
+PROPS['C16']['runs'].append({'harness': 'holders_seq', 'quick': {'enum': True, 'rc': rc(1500, sizes=[40, 80])}, 'thorough': {'enum': True, 'rc': rc(30000, sizes=[40, 80, 160])}})
 
 NOT_APPLICABLE = {}
